@@ -117,7 +117,25 @@ impl VerifyOut {
     }
 }
 
-pub type IssuerHandle = Arc<Mutex<SDJWTIssuer>>;
+/// A long-lived issuer instance. It is constructed lazily *on the node thread* that first uses
+/// it, so that no library code ever runs on the harness thread (whose thread-locals outlive a
+/// simulated world).
+pub struct LazyIssuer {
+    pub key: String,
+    pub alg: Option<String>,
+    pub inst: Option<SDJWTIssuer>,
+}
+
+impl LazyIssuer {
+    pub fn get(&mut self) -> &mut SDJWTIssuer {
+        if self.inst.is_none() {
+            self.inst = Some(SDJWTIssuer::new(keys::enc_key(&self.key), self.alg.clone()));
+        }
+        self.inst.as_mut().unwrap()
+    }
+}
+
+pub type IssuerHandle = Arc<Mutex<LazyIssuer>>;
 pub type HolderHandle = Arc<Mutex<SDJWTHolder>>;
 
 #[derive(Clone, Debug)]
@@ -161,7 +179,7 @@ impl World {
     }
 
     pub fn new_issuer(key_id: &str, alg: Option<String>) -> IssuerHandle {
-        Arc::new(Mutex::new(SDJWTIssuer::new(keys::enc_key(key_id), alg)))
+        Arc::new(Mutex::new(LazyIssuer { key: key_id.to_string(), alg, inst: None }))
     }
 
     /// Real issuer: `issue_sd_jwt` on node `node`.
@@ -174,7 +192,7 @@ impl World {
         let hk = holder_key.map(keys::jwk);
         let r = self.rt.call_typed(node, move || {
             let mut g = issuer.lock().unwrap_or_else(|e| e.into_inner());
-            match g.issue_sd_jwt(claims, strat_to_lib(&strat), hk, decoys, fmt.lib()) {
+            match g.get().issue_sd_jwt(claims, strat_to_lib(&strat), hk, decoys, fmt.lib()) {
                 Ok(s) => Out::Ok(s),
                 Err(e) => lib_err(e),
             }
@@ -305,11 +323,12 @@ impl World {
     /// Sign with an arbitrary raw header object (e.g. unknown extra members) under HS256 keyed
     /// with arbitrary bytes — the "public key as HMAC secret" attack. Not recorded in
     /// `signed_by` of any roster key.
-    pub fn hs_sign_raw(header: &Value, payload_b64: &str, secret: &[u8]) -> String {
+    pub fn hs_sign_raw(header: &Value, payload_b64: &str, secret: &[u8], hs: &str) -> String {
         let h = model::b64e(header.to_string().as_bytes());
         let msg = format!("{}.{}", h, payload_b64);
         let key = jsonwebtoken::EncodingKey::from_secret(secret);
-        let sig = jsonwebtoken::crypto::sign(msg.as_bytes(), &key, Algorithm::HS256).unwrap_or_default();
+        let alg = Algorithm::from_str(hs).unwrap_or(Algorithm::HS256);
+        let sig = jsonwebtoken::crypto::sign(msg.as_bytes(), &key, alg).unwrap_or_default();
         format!("{}.{}", msg, sig)
     }
 
